@@ -5,18 +5,11 @@ import (
 )
 
 func (sel *Selection) XFind(path *xpath.Path) (*Selection, error) {
-	p := sel
-	var err error
-	xp := path
-	r := xpathImpl{}
-	for xp != nil {
-		p, err = r.resolvePath(xp, p)
-		if p == nil || err != nil {
-			return nil, err
-		}
-		xp = xp.Next
+	if path == nil {
+		return sel, nil
 	}
-	return p, nil
+	// resolvePath walks the steps that follow the one it is given itself
+	return xpathImpl{}.resolvePath(path, sel)
 }
 
 func (sel *Selection) XPredicate(p *xpath.Path) (bool, error) {
